@@ -89,13 +89,26 @@ class Spec:
         self.group = group
 
 
+def arg_assert_path(p):
+    """p ends in the `checks` argument assertion of write_bits: it took the false branch of
+    `value & mask(n_bits) == value` (the panic the feature exists to raise; its exactness is C19.G2)"""
+    for (t, op, v) in p.constraints:
+        ex = mir.expand(t, p)
+        if isinstance(ex, tuple) and ex and ex[0] == "binop" and ex[1] == "Eq" and op == "==" and v == 0:
+            s = str(ex)
+            if "wrapping_sub" in s and "'arg', 2, 'value'" in s and "'arg', 3, 'n_bits'" in s and "BitAnd" in s:
+                return True
+    return False
+
+
 def writer_specs():
     out = []
     for e, ety in (("be", BE), ("le", LE)):
         tr = "traits::bits::BitWrite<%s>" % ety
         sf = r"impls::buf_bit_writer::BufBitWriter<%s, WW, WP>" % ety.replace("::", "::")
         out.append(Spec("writer.%s.write_bits" % e, dict(name="write_bits", trait_is=tr, impl_self="impls::buf_bit_writer::BufBitWriter<"),
-                        WRITER_W, writer_inv(), pre=arg_le(3, "n_bits", 64), doc="documented precondition n_bits <= 64"))
+                        WRITER_W, writer_inv(), pre=arg_le(3, "n_bits", 64), doc="documented precondition n_bits <= 64",
+                        allow_panic=lambda msg, p: arg_assert_path(p)))
         out.append(Spec("writer.%s.write_unary" % e, dict(name="write_unary", trait_is=tr, impl_self="impls::buf_bit_writer::BufBitWriter<"),
                         WRITER_W, writer_inv(), pre=arg_le(2, "value", U64MAX - 1), doc="documented precondition value != u64::MAX"))
         out.append(Spec("writer.%s.flush" % e, dict(name="flush", trait_is=tr, impl_self="impls::buf_bit_writer::BufBitWriter<"),
